@@ -11,6 +11,7 @@ import KcpVerif.Lemmas.SysProgress2
 import KcpVerif.Lemmas.SysDrainCex
 import KcpVerif.Lemmas.SysDrainCons2
 import KcpVerif.Lemmas.SysWedgeRepaired
+import KcpVerif.Lemmas.SysDrainReturn
 /-! C02 — eventual delivery: a healed network always drains the backlog. -/
 namespace KcpVerif.Props
 open KcpVerif KcpVerif.Gen KcpVerif.Kcp KcpVerif.Live
@@ -803,5 +804,39 @@ theorem C02_wedge_repaired :
     SysC.repState.A.waitSnd = 0 ∧ SysC.repState.got = [0, 1, 2] ∧ SysC.repState.ba = [] ∧
     SysC.repAfter.A.waitSnd = 0 ∧ SysC.repAfter.got = [0, 1, 2, 3] ∧ SysC.repAfter.now = 1049 := by
   decide
+
+/-! ### the phases of the progress step, arbitrary consistent states (repaired model)
+
+Each theorem is about ANY state satisfying `SysC.Cons` (which `C02_consistency_any_history` establishes
+after any fault history) and the fair system from there on. -/
+
+open KcpVerif.Sys KcpVerif.SysC in
+/-- **Phase D — the cumulative acknowledgement arrives.**  When A inputs the head datagram of the link
+B → A, its `snd_una` ends at or beyond the `una` of every frame in it. -/
+theorem C02_phase_una_arrives {p : Par} {s : State} {t0 : Nat} {frs : List Wire.Frm} {gab grest : GLink}
+    (h : Cons p s gab ((t0, frs) :: grest)) (hnw : NoWrap p.base s) (hdue : t0 ≤ s.now) :
+    ∀ fr ∈ frs, o p.base fr.una ≤ o p.base (Sys.step s .dlvA).A.snd_una := phase_D h hnw hdue
+
+open KcpVerif.Sys KcpVerif.SysC in
+/-- **Phase C — an owed acknowledgement is flushed.**  B's scheduled flush with a non-empty ack list
+puts a datagram on the link that arrives `D` later and contains a frame with `una = rcv_nxt`. -/
+theorem C02_phase_ack_flushed {p : Par} {s : State} {gab gba : GLink} (h : Cons p s gab gba) (hack : s.B.acklist ≠ []) :
+    ∃ fr0 frs0 pre post, (Sys.step s .flushB).ba = s.ba ++ pre ++ [⟨s.now + s.D, Wire.encFrames frs0⟩] ++ post ∧
+      fr0 ∈ frs0 ∧ fr0.una = s.B.rcv_nxt := phase_C h hack
+
+open KcpVerif.Sys KcpVerif.SysC in
+/-- **The return path, composed, with its bound.**  In any consistent state in which B has passed the
+sequence number with offset `U`, owes an acknowledgement and has its next flush at or before `T`
+(`now ≤ T`), in EVERY later state of the fair system whose clock is past `T + D` A's `snd_una` is
+beyond `U` — whatever datagrams (genuine, stale, duplicated) are still in flight in both directions,
+whatever A and B send and receive in between, whether the acknowledgement leaves with the scheduled
+flush or with an ACK-only flush at the end of an `Input`.  (`Ret`, `ret_step`: the acknowledgement
+is owed by B, or on its way in a datagram arriving by `T + D`, or has arrived; each event keeps it on
+that path, and a `tick` is refused while a flush or a datagram is due.) -/
+theorem C02_phase_return {p : Par} {s : State} {gab gba : GLink} (h : Cons p s gab gba) (U T : Nat)
+    (hB : U < o p.base s.B.rcv_nxt) (hack : s.B.acklist ≠ []) (hnf : s.nfB ≤ T) (hnow : s.now ≤ T)
+    (evs : List Ev) (hnw : RunNoWrap p.base s evs) (ht : T + s.D < (Sys.run s evs).now) :
+    U < o p.base (Sys.run s evs).A.snd_una :=
+  ret_done h U T (Or.inr (Or.inl ⟨hB, hack, hnf, hnow⟩)) evs hnw ht
 
 end KcpVerif.Props
